@@ -45,16 +45,24 @@ COMPONENTS = {
 ASSUMPTIONS = ['module objects are planted, not found by a real finder; '
                '__import__ and attribute resolution are real']
 
-MODULES = ['vq0.sub.mod', 'vq0.other.mod', 'vq1.mod']
+# (a package whose name starts with a capital sorts before `__gin__`)
+MODULES = ['vq0.sub.mod', 'vq0.other.mod', 'vq1.mod', 'Vq2.mod']
 OBJECTS = {
-    'vq0.sub.mod': ['fn0', 'fn1', 'K0', 'K0.meth', 'K0.Inner', 'K1', 'consume'],
+    # `fn0v` is fn0 under an ordinary functools.wraps decorator: another object
+    'vq0.sub.mod': ['fn0', 'fn1', 'K0', 'K0.meth', 'K0.Inner', 'K1', 'consume',
+                    'fn0v'],
     'vq0.other.mod': ['fn0', 'consume'],
-    # `lazyfn` is exported through a module-level __getattr__ (PEP 562)
-    'vq1.mod': ['fn2', 'K0', 'K0.meth', 'consume', 'lazyfn'],
+    # `lazyfn` is exported through a module-level __getattr__ (PEP 562);
+    # `sfn` and `SK` are registered statically, under other names than their
+    # Python names, before any file is parsed
+    'vq1.mod': ['fn2', 'K0', 'K0.meth', 'consume', 'lazyfn', 'sfn', 'SK'],
+    'Vq2.mod': ['fn0', 'K1', 'consume', 'fn0v'],
 }
 PARAMS = {'fn0': ['a', 'b'], 'fn1': ['a', 'b'], 'fn2': ['a', 'b'],
           'K0': ['a', 'b'], 'K1': ['a', 'b'], 'K0.meth': ['mp'],
-          'K0.Inner': ['x'], 'consume': ['x', 'y'], 'lazyfn': ['a', 'b']}
+          'K0.Inner': ['x'], 'consume': ['x', 'y'], 'lazyfn': ['a', 'b'],
+          'fn0v': ['a', 'b'], 'sfn': ['a', 'b'], 'SK': ['a', 'b']}
+STATIC = {'sfn': 'renamed_fn', 'SK': 'RenamedK'}
 
 MOD_SRC = '''
 def fn0(a=0, b=0):
@@ -78,6 +86,18 @@ class K0:
 class K1:
   def __init__(self, a=0, b=0):
     _hook(__name__, 'K1', {'a': a, 'b': b})
+import functools
+def _deco(f):
+  @functools.wraps(f)
+  def wrapper(a=0, b=0):
+    return _hook(__name__, 'fn0v', {'a': a, 'b': b})
+  return wrapper
+fn0v = _deco(fn0)
+def sfn(a=0, b=0):
+  return _hook(__name__, 'sfn', {'a': a, 'b': b})
+class SK:
+  def __init__(self, a=0, b=0):
+    _hook(__name__, 'SK', {'a': a, 'b': b})
 '''
 
 
@@ -193,7 +213,9 @@ def gen(rng, tier):
     bad.append(rng.choice(['foreign_symbol', 'missing_attr', 'gin_symbol',
                            'late_enable', 'aliased_enable', 'unknown_feature',
                            'foreign_symbol_includee']))
-  return {'files': files, 'bad': bad}
+  return {'files': files, 'bad': bad,
+          'static_how': rng.choice(['decorator', 'external']),
+          'pre_static': rng.random() < 0.2}
 
 
 def file_text(f, files):
@@ -244,6 +266,8 @@ def plant(hook):
     for obj in OBJECTS[name]:
       if '.' not in obj and obj != 'lazyfn':
         setattr(m, obj, g[obj])
+      if obj in STATIC:
+        setattr(m, '_orig_' + obj, g[obj])
     if 'lazyfn' in OBJECTS[name]:
       def _module_getattr(attr, fn=g['lazyfn'], modname=name):
         if attr == 'lazyfn':
@@ -252,6 +276,20 @@ def plant(hook):
       m.__getattr__ = _module_getattr
     mods[name] = m
   return mods
+
+
+def register_static(mods, how):
+  """Registers vq1.mod's sfn / SK the static way, under other names."""
+  gin = world.gin
+  m = mods['vq1.mod']
+  for attr, regname in sorted(STATIC.items()):
+    orig = m.__dict__['_orig_' + attr]
+    if how == 'decorator':
+      # as a decorator would: the module attribute is what gin returned
+      setattr(m, attr, gin.configurable(regname, module='vq1.mod')(orig))
+    else:
+      setattr(m, attr, orig)
+      gin.external_configurable(orig, name=regname, module='vq1.mod')
 
 
 def lookup(mods, module, path):
@@ -280,6 +318,12 @@ def run(case):
     return ('result', module, path)
 
   mods = plant(hook)
+  static_how = case.get('static_how', 'decorator')
+
+  def fresh_world():
+    world.reset()
+    register_static(mods, static_how)
+  register_static(mods, static_how)
   files = case['files']
   fs = vfs.VFS([], nreaders=1)
   for f in files:
@@ -316,6 +360,15 @@ def run(case):
 
   depth0 = len(getattr(world.config, '_PARSE_CONTEXTS', []))
   exc = None
+  if case.get('pre_static'):
+    # an earlier text without dynamic registration that imports a module of
+    # the gin package itself (as `import gin.tf.external_configurables` does)
+    probes.plant_module('gin.vq_ext')
+    try:
+      gin.parse_config('import gin.vq_ext\n')
+    except Exception as e:  # pylint: disable=broad-except
+      v('C19.parse_succeeds', ['static-sibling', type(e).__name__],
+        'parsing "import gin.vq_ext" raised %r' % e)
   try:
     gin.parse_config_file(files[0]['name'])
   except Exception as e:  # pylint: disable=broad-except
@@ -443,7 +496,7 @@ def run(case):
         'config_str() raised %s: %s' % (type(e).__name__,
                                         probes.scrub(str(e))[:300]))
     if text is not None:
-      world.reset()
+      fresh_world()
       exc2 = None
       try:
         gin.parse_config(text)
@@ -466,7 +519,7 @@ def run(case):
   for kind in case['bad']:
     if viol:
       break
-    world.reset()
+    fresh_world()
     fs.register(gin)
     stats['bad_texts'] += 1
     depth0 = len(getattr(world.config, '_PARSE_CONTEXTS', []))
@@ -518,7 +571,7 @@ def run(case):
         'parse-context stack depth %d after the failed parse, %d before' %
         (len(world.config._PARSE_CONTEXTS), depth0))  # pylint: disable=protected-access
   for name in list(sys.modules):
-    if name.split('.')[0] in ('vq0', 'vq1'):
+    if name.split('.')[0] in ('vq0', 'vq1', 'Vq2') or name == 'gin.vq_ext':
       del sys.modules[name]
   seen = set()
   uniq = []
@@ -547,6 +600,10 @@ def run(case):
 
 
 def shrinks(case):
+  if case.get('pre_static'):
+    c = copy.deepcopy(case)
+    c['pre_static'] = False
+    yield c
   yield from shrink.tree_shrinks(case, {'bad', 'stmts'}, allow_empty=True)
   if len(case['files']) > 1:
     # drop the last file (children are always later in the list)
